@@ -79,11 +79,12 @@ func init() {
 // runScript executes a write script the way a careful caller would: stop at the
 // first call that returns an error, then Close (as a deferred Close does).
 type scriptResult struct {
-	errs    []error // every non-nil error returned, in order
-	calls   []string
-	sink    *gen.Sink
-	panicky bool
-	hung    bool
+	errs        []error // every non-nil error returned, in order
+	calls       []string
+	sink        *gen.Sink
+	panicky     bool
+	hung        bool
+	sinkAtClose []byte // sink contents when the first Close returned
 }
 
 func runScript(c *Ctx, cfg wcfg, sc wScript, sink *gen.Sink) scriptResult {
@@ -123,6 +124,14 @@ func runScript(c *Ctx, cfg wcfg, sc wScript, sink *gen.Sink) scriptResult {
 		if err := w.Close(); err != nil {
 			res.errs = append(res.errs, err)
 		}
+		res.sinkAtClose = append([]byte(nil), sink.Buf...)
+		// What callers do next (a deferred second Close, another attempt to flush or write): whatever
+		// these return, none may panic or hang (a panic is reported by Watch).
+		res.calls = append(res.calls, "Close", "Flush", "Write", "Close")
+		_ = w.Close()
+		_ = w.Flush()
+		_, _ = w.Write([]byte("after the failure"))
+		_ = w.Close()
 	})
 	res.panicky = wr.Panicked
 	res.hung = wr.Deadlocked
@@ -148,7 +157,7 @@ func c15Writer(c *Ctx, i int64) {
 		return
 	}
 	N := dry.sink.Calls
-	good := dry.sink.Buf
+	good := dry.sinkAtClose
 	mode := "seq"
 	if cfg.conc != 1 {
 		mode = "conc"
@@ -195,8 +204,8 @@ func c15Writer(c *Ctx, i int64) {
 				c.Violation(key+"/"+model+"/"+mode, fmt.Sprintf("sink call %d of %d failed (%v) but no Write/ReadFrom/Flush/Close call returned that error (returned: %d error(s)) [%s, script %s]", k, N, first, len(res.errs), cfg, sc.name), det())
 			}
 			if !transient {
-				if !bytes.HasPrefix(good, sink.Buf) {
-					c.Violation("sink-not-a-prefix/"+mode, fmt.Sprintf("after the sink failed at call %d, its contents (%d bytes) are not a prefix of the fault-free output (%d bytes) [%s, script %s]", k, len(sink.Buf), len(good), cfg, sc.name), det())
+				if !bytes.HasPrefix(good, res.sinkAtClose) {
+					c.Violation("sink-not-a-prefix/"+mode, fmt.Sprintf("after the sink failed at call %d, its contents (%d bytes) are not a prefix of the fault-free output (%d bytes) [%s, script %s]", k, len(res.sinkAtClose), len(good), cfg, sc.name), det())
 				}
 			}
 			c.Cell(fmt.Sprintf("writer/%s/%s/%s/k=%s/partial=%v", cfg.cell(), sc.name, model, kClass(k, N), partial))
